@@ -501,7 +501,12 @@ func (s *Server) writeData() error {
 }
 
 func (s *Server) writePoint(p edge.PointMessage) error {
-	strs, floats, ints, bools := s.fieldsToTypedMaps(p.Fields())
+	strs, floats, ints, bools, err := s.fieldsToTypedMaps(p.Fields())
+	if err != nil {
+		// The protocol cannot carry the value: report it and drop the point, keep the UDF running.
+		s.diag.Error("dropping point that cannot be sent to the UDF", err)
+		return nil
+	}
 	udfPoint := &agent.Point{
 		Time:            p.Time().UnixNano(),
 		Name:            p.Name(),
@@ -527,6 +532,7 @@ func (s *Server) fieldsToTypedMaps(fields models.Fields) (
 	floats map[string]float64,
 	ints map[string]int64,
 	bools map[string]bool,
+	err error,
 ) {
 	for k, v := range fields {
 		switch value := v.(type) {
@@ -551,7 +557,8 @@ func (s *Server) fieldsToTypedMaps(fields models.Fields) (
 			}
 			bools[k] = value
 		default:
-			panic("unsupported field value type")
+			// For example a duration produced by an eval node or a null value from a query.
+			return nil, nil, nil, nil, fmt.Errorf("field %q has unsupported type %T", k, v)
 		}
 	}
 	return
@@ -594,7 +601,12 @@ func (s *Server) writeBeginBatch(begin edge.BeginBatchMessage) error {
 }
 
 func (s *Server) writeBatchPoint(group models.GroupID, bp edge.BatchPointMessage) error {
-	strs, floats, ints, bools := s.fieldsToTypedMaps(bp.Fields())
+	strs, floats, ints, bools, err := s.fieldsToTypedMaps(bp.Fields())
+	if err != nil {
+		// The protocol cannot carry the value: report it and drop the point, keep the UDF running.
+		s.diag.Error("dropping batch point that cannot be sent to the UDF", err)
+		return nil
+	}
 	req := &agent.Request{
 		Message: &agent.Request_Point{
 			Point: &agent.Point{
